@@ -281,6 +281,9 @@ fn converged(w: &World, r: &rp::RpResult) -> Vec<(String, String)> {
 pub struct C02Model {
     pub stepwise: bool,
     pub rolls: bool,
+    /// `ca` has a second parent ("parent2"), which presents its class under
+    /// another name
+    pub two_parents: bool,
 }
 
 impl Model for C02Model {
@@ -301,6 +304,20 @@ impl Model for C02Model {
             Op::Suspend { parent: p(), child: c() },
             Op::Unsuspend { parent: p(), child: c() },
         ];
+        if self.two_parents {
+            // (this configuration is about `ca` and its two parents. The
+            // grandchild's entitlement is left alone here: with two classes
+            // at `ca` a change of it withdraws the grandchild's certificate
+            // in one class at once - a publication of `ca` - while the
+            // certificate in the other class waits for the grandchild to
+            // ask, and the per-publication oracle, which compares with the
+            // entitlement, would take that wait for an over-claim)
+            ops.retain(|o| !matches!(o, Op::Entitle { parent, .. } if parent == "ca"));
+            ops.push(Op::Entitle { parent: "parent2".into(), child: c(), res: r3("AS65000", "10.0.0.0/17", "") });
+            ops.push(Op::Entitle { parent: "parent2".into(), child: c(), res: r3("AS65000", "10.0.0.0/16", "") });
+            ops.push(Op::Suspend { parent: "parent2".into(), child: c() });
+            ops.push(Op::Unsuspend { parent: "parent2".into(), child: c() });
+        }
         if self.rolls {
             ops.push(Op::RollInit { ca: c() });
             ops.push(Op::RollActivate { ca: c() });
@@ -517,6 +534,10 @@ pub fn run(tier: &Tier, args: &[String]) -> i32 {
     let cap = crate::report::arg_value(args, "--cap")
         .and_then(|d| d.parse().ok())
         .unwrap_or(if tier.thorough { 1500 } else { 50 });
+    fn build_plain_w3() -> Result<World, String> {
+        let f = c01::full_ca_res();
+        World::build_w3(WorldCfg::default(), res(&f.0, &f.1, &f.2), res("AS65001", "10.0.0.0/24", "")).map_err(|e| e.to_string())
+    }
     let build_plain = || -> Result<World, String> {
         let f = c01::full_ca_res();
         let w = World::build_w3(
@@ -532,21 +553,53 @@ pub fn run(tier: &Tier, args: &[String]) -> i32 {
         Config {
             name: "w3".into(),
             build: Box::new(build_plain),
-            model: C02Model { stepwise: false, rolls: false },
+            model: C02Model { stepwise: false, rolls: false, two_parents: false },
         },
         Config {
             name: "w3-mapped-class".into(),
             build: Box::new(|| build_mapped(WorldCfg::default())),
-            model: C02Model { stepwise: false, rolls: tier.thorough },
+            model: C02Model { stepwise: false, rolls: tier.thorough, two_parents: false },
         },
     ];
+    // two parents that call their class for `ca` by different names
+    configs.push(Config {
+        name: "w3-two-parents-mapped".into(),
+        build: Box::new(|| {
+            let w = build_plain_w3()?;
+            (|| -> crate::world::KResult<()> {
+                w.add_ca("parent2")?;
+                w.add_child_link("ta", "parent2", res("AS65000-AS65010", "10.0.0.0/8", ""))?;
+                w.sync_parent("parent2", "ta")?;
+                w.sync_parent("parent2", "ta")?;
+                w.sync_ta()?;
+                w.sync_parent("parent2", "ta")?;
+                w.add_child_link("parent2", "ca", res("AS65000", "10.0.0.0/16", ""))?;
+                // (a mapping can only be set before the child has a certificate)
+                w.update_child(
+                    "parent2",
+                    "ca",
+                    UpdateChildRequest::resource_class_name_mapping(ResourceClassNameMapping {
+                        name_in_parent: ResourceClassName::from("0"),
+                        name_for_child: ResourceClassName::from("y"),
+                    }),
+                )?;
+                Ok(())
+            })()
+            .map_err(|e| e.to_string())?;
+            w.pump()?;
+            w.settle()?;
+            w.settle()?;
+            Ok(w)
+        }),
+        model: C02Model { stepwise: false, rolls: false, two_parents: true },
+    });
     // (A configuration that ran the queued tasks one at a time was removed:
     // which of several tasks queued by one event comes first follows the
     // iteration order of a hash map inside krill, which this machinery does
     // not control, so a violation seen during exploration could not be
     // replayed. The one order-dependent behaviour it had shown is pinned
     // down by the deterministic scenario below.)
-    let _ = C02Model { stepwise: true, rolls: false };
+    let _ = C02Model { stepwise: true, rolls: false, two_parents: false };
     out.findings.extend(shrink_before_child_sync_scenario());
     let _ = (UpdateChildRequest::suspend(), ResourceClassNameMapping {
         name_in_parent: ResourceClassName::from("0"),
